@@ -367,7 +367,7 @@ impl Gen {
                         3 | 4 => Op { op: "m_try_reclaim".into(), h, a: self.reserve_arg(), ..Default::default() },
                         5 => Op { op: "m_reserve".into(), h, a: self.reserve_arg(), ..Default::default() },
                         6 => Op { op: "m_extend".into(), h, a: abs(self.r.below(self.maxlen + 1)), mode: self.r.below(10) as i64, ..Default::default() },
-                        _ => Op { op: "m_resize".into(), h, a: abs(self.r.below(2 * self.maxlen + 1)), val: 200 + self.r.below(16) as u8, ..Default::default() },
+                        _ => Op { op: "m_resize".into(), h, a: abs(self.r.below(2 * self.maxlen + 1)), val: if self.r.chance(30) { 0 } else { 200 + self.r.below(16) as u8 }, ..Default::default() },
                     });
                 }
                 (2, H::B(b)) if self.r.chance(50) => {
@@ -535,7 +535,7 @@ impl Gen {
                         4 if self.r.chance(30) => Op { op: "m_clear".into(), h, ..Default::default() },
                         5 => {
                             let a = if self.r.chance(self.bad_pct()) { rel("imax", 1) } else { abs(self.r.below(2 * self.maxlen + 1)) };
-                            Op { op: "m_resize".into(), h, a, val: 200 + self.r.below(16) as u8, ..Default::default() }
+                            Op { op: "m_resize".into(), h, a, val: if self.r.chance(30) { 0 } else { 200 + self.r.below(16) as u8 }, ..Default::default() }
                         }
                         6 | 7 => Op { op: "m_reserve".into(), h, a: self.reserve_arg(), ..Default::default() },
                         8 | 9 => Op { op: "m_try_reclaim".into(), h, a: self.reserve_arg(), ..Default::default() },
